@@ -1,5 +1,6 @@
 import OpcuaModel.Model.Recv
 import OpcuaModel.Model.RecvSpec
+import OpcuaModel.Model.RecvTok
 /-
   C10 — a replayed secured chunk is never delivered twice.
 
@@ -163,5 +164,88 @@ theorem C10_guarantee_is_narrow :
     mergeChunks [⟨ctC, 5, 1, [1]⟩, ⟨ctC, 6, 1, [2]⟩, ⟨ctC, 5, 1, [1]⟩, ⟨ctF, 7, 1, [3]⟩] = [1, 2, 1, 3] ∧
     delivered (runOuts { maxChunkCount := 512, maxMessageSize := 2097152 } [] [⟨ctC, 5, 1, [1]⟩, ⟨ctF, 6, 1, [2]⟩, ⟨ctF, 6, 1, [2]⟩]) =
       [(1, [1, 2]), (1, [2])] := by decide
+
+/-! ### replay across a token renewal (client channel; ties C10 with C17's instance table) -/
+
+open Opcua.Tokens Opcua.RecvTok in
+/-- FINDING C10.replay-delivered-twice, across renewals: a frame secured under
+    a token of channel `f.chan` and delivered once is delivered AGAIN when it is
+    re-sent after ANY sequence of OpenSecureChannel responses (renewals) and
+    expiry timers in which no expiring token id equals the channel id — the
+    superseded instance is never removed (C17) and no sequence number is
+    compared (C10), so the replay window of a captured chunk never closes
+    while the connection lives. -/
+theorem C10_finding_replay_across_renewal (cfg : Cfg) (st : RecvTok.St) (f : SFrame) (i : Inst) (evs : List Ev)
+    (hm : i ∈ st.table.get f.chan) (hk : i.key = f.key) (hno : NoTokEqChan f.chan evs)
+    (hf : isFinal f.chunk) (hempty : st.bufs.get f.chunk.req = [])
+    (hfit : exceeds cfg.size0 f.chunk.data.length cfg.maxMessageSize = false) :
+    deliveredTok (RecvTok.run cfg st (.frame f :: (evs.map In.table ++ [.frame f]))) =
+      [(f.chunk.req, f.chunk.data), (f.chunk.req, f.chunk.data)] := by
+  obtain ⟨tok1, hv1⟩ := verify_accepts_of_mem st.table f.chan f.key i hm hk
+  obtain ⟨tok2, hv2⟩ := verify_accepts_of_mem (runEvs st.table evs) f.chan f.key i
+    (kept_forever f.chan evs st.table i hno hm) hk
+  obtain ⟨h1, h2⟩ := step_final_single cfg st.bufs f.chunk hf hempty hfit
+  obtain ⟨h3, _⟩ := step_final_single cfg (Recv.step cfg st.bufs f.chunk).1 f.chunk hf h2 hfit
+  have hstep1 : RecvTok.step cfg st (.frame f) =
+      ({ st with bufs := (Recv.step cfg st.bufs f.chunk).1 }, some (.merged f.chunk.req f.chunk.data)) := by
+    simp [RecvTok.step, hv1, h1]
+  simp only [RecvTok.run, hstep1, run_append, final_table_events, deliveredTok, List.filterMap_cons,
+    List.filterMap_append, run_table_events, id]
+  simp [RecvTok.step, hv2, h3, delivered]
+
+open Opcua.Tokens Opcua.RecvTok in
+/-- what closes the window: when the token id equals the channel id and its
+    expiry has run (keys unique per token), the copy is rejected by `readChunk` -/
+theorem C10_old_token_copy_rejected_after_expiry (cfg : Cfg) (st : RecvTok.St) (f : SFrame) (i : Inst)
+    (hi : i.chan = f.chan) (hk : i.key = f.key) (htok : i.tok = i.chan)
+    (huniq : ∀ o ∈ st.table.get i.chan, o.key = i.key → o.tok = i.tok) :
+    (RecvTok.step cfg { st with table := expire st.table i } (.frame f)).2 = none := by
+  have hv : ∀ tok, verify (expire st.table i) f.chan f.key ≠ .accepted tok := by
+    rw [← hi, ← hk]
+    -- Props.C17.C17_rejected_when_tok_eq_chan, re-proved here from the model lemmas
+    intro tok hv
+    unfold verify at hv
+    have hget : (expire st.table i).get i.chan = (st.table.get i.chan).filter (fun o => !(o.tok == i.tok)) := by
+      rw [← htok]; exact expire_get_tok st.table i
+    rw [hget] at hv
+    cases hl : (st.table.get i.chan).filter (fun o => !(o.tok == i.tok)) with
+    | nil => rw [hl] at hv; cases hv
+    | cons a l =>
+      rw [hl] at hv
+      change (match (a :: l).reverse.find? (fun j => j.key == i.key) with
+        | some i => Verdict.accepted i.tok
+        | none => Verdict.securityFailed) = Verdict.accepted tok at hv
+      cases hfd : (a :: l).reverse.find? (fun j => j.key == i.key) with
+      | none => rw [hfd] at hv; cases hv
+      | some j =>
+        have hj := List.mem_of_find?_eq_some hfd
+        have hkk := List.find?_some hfd
+        have hj' : j ∈ (st.table.get i.chan).filter (fun o => !(o.tok == i.tok)) := by
+          rw [hl]; exact List.mem_reverse.mp hj
+        obtain ⟨hj1, hj2⟩ := List.mem_filter.mp hj'
+        have : j.tok = i.tok := huniq j hj1 (by simpa using hkk)
+        simp [this] at hj2
+  cases hvv : verify (expire st.table i) f.chan f.key with
+  | accepted tok => exact absurd hvv (hv tok)
+  | noInstance => simp [RecvTok.step, hvv]
+  | securityFailed => simp [RecvTok.step, hvv]
+
+/-- the witness: channel 7, token 1 (keys 101) → renewed by token 2 (keys 102)
+    → expiry of token 1 fires → the captured frame of token 1 is delivered again -/
+theorem C10_finding_replay_across_renewal_witness :
+    RecvTok.deliveredTok (RecvTok.run { maxChunkCount := 512, maxMessageSize := 2097152 }
+      { table := [(7, [⟨7, 1, 101⟩])], bufs := [] }
+      [.frame ⟨7, 101, ⟨ctF, 5, 9, [1, 2]⟩⟩, .table (.opn ⟨7, 2, 102⟩), .table (.expire ⟨7, 1, 101⟩),
+       .frame ⟨7, 101, ⟨ctF, 5, 9, [1, 2]⟩⟩]) = [(9, [1, 2]), (9, [1, 2])] := by decide
+
+/-! ### OPN chunks
+
+  An OPN chunk that passed `verifyAndDecrypt` goes through the very same loop
+  body (`Recv.step`): chunk-type switch, merge, `ua.DecodeService`; a decoded
+  OpenSecureChannelRequest is then handed to `handleOpenSecureChannelRequest`.
+  Nothing on this path compares a sequence number either, so the theorems
+  above apply verbatim to OPN chunks: a replayed OpenSecureChannel request is
+  decoded — and handled — a second time (`C10_finding_replay_single` with the
+  OPN chunk as `c`; confirmed on the real code by the runner, case `opn-replay`). -/
 
 end Opcua.Props.C10
